@@ -123,6 +123,12 @@ bool sample(bilinear_sampler, SrcView const& src, point<F> const& p, DstP& resul
     {
         return false;
     }
+    if (src.width() < 1 || src.height() < 1)
+    {
+        // an empty view has no pixel to interpolate: with floor(p) == -1 the tests above pass
+        // (-1 >= 0 is false) and a pixel outside the view was read
+        return false;
+    }
 
 	pixel<F,devicen_layout_t<num_channels<SrcView>::value> > mp(0); // suboptimal
 	typename SrcView::xy_locator loc=src.xy_at(p0.x,p0.y);
